@@ -85,7 +85,12 @@ def numeric_looking(v):
 
 
 def gen_value(rng, allow_numeric_str=True):
-    k = rng.weighted([("int", 3), ("float", 3), ("fspecial", 2), ("str", 3), ("numstr", 2 if allow_numeric_str else 0)])
+    k = rng.weighted([("int", 12), ("float", 12), ("fspecial", 8), ("str", 12), ("numstr", 8 if allow_numeric_str else 0),
+                      ("longstr", 1)])
+    if k == "longstr":
+        # one value longer than any I/O buffer or read block
+        n = rng.choice([3000, 5000, 8191, 8192, 9000, 17000, 33000, 70000])
+        return rng.choice(["sample_", "x", "P1_", "#"]) + rng.choice(["x", "ab", "0_", "q/"]) * (n // 2)
     if k == "int":
         m = rng.below(6)
         if m == 0:
@@ -414,7 +419,16 @@ def generate(rng, tier, index):
             ops.append(["set", o, rng.choice(names), enc(gen_value(rng, numstr))])
         elif k == "set_parameters":
             d = {nm: enc(gen_value(rng, numstr)) for nm in rng.sample(names, rng.between(0, min(4, len(names))))}
-            ops.append(["set_parameters", o, d])
+            r = rng.below(10)
+            if r < 2 and len(objs) > 1:
+                # hand one object's table to another, as in dst.set_parameters(src.get_parameters())
+                src = rng.choice([x for x in objs if x != o])
+                ops.append(["set_parameters_from", o, src])
+            elif r < 5:
+                # the caller reuses one of its own dict objects for several calls / objects
+                ops.append(["set_parameters", o, d, rng.below(2)])
+            else:
+                ops.append(["set_parameters", o, d])
         elif k == "set_varylist":
             pool = canvary.get(o) if (canvary.get(o) and rng.chance(0.9)) else names
             ops.append(["set_varylist", o, [rng.choice(pool) for _ in range(rng.between(0, 4))]])
@@ -446,6 +460,10 @@ def generate(rng, tier, index):
                 ops.append(["read_par_file", next_obj, path, gen_plan(rng, "r", kinds)])
                 objs.append(next_obj)
                 next_obj += 1
+    # which steps are followed by a read-back through the getters (a read is an event too: a lazily
+    # maintained object could depend on it, so it must not follow every step in every run)
+    p_obs = rng.choice([1.0, 1.0, 0.5, 0.2])
+    cfg["observe"] = [1 if rng.chance(p_obs) else 0 for _ in ops]
     return {"property": PROPERTY, "config": cfg, "ops": ops}
 
 
@@ -496,6 +514,8 @@ def execute(trace):
 
     objs = {}      # id -> real object
     models = {}    # id -> _Model
+    shared = {}    # caller-side dict objects that are reused across calls
+    obs_flags = cfg.get("observe")
     paths = {}     # path -> ("ack"|"foreign", [(name, value)]) | ("unknown",)
     violation = None
     n_save = n_load = 0
@@ -625,9 +645,27 @@ def execute(trace):
                         v = dec(op[3])
                         o.set(op[2], v)
                         m.p[op[2]] = [v, False]
+                    elif kind == "set_parameters_from":
+                        src = op[2]
+                        if src not in objs or src == oid:
+                            continue
+                        o.set_parameters(objs[src].get_parameters())
+                        for k, v in models[src].p.items():
+                            m.p[k] = [v[0], True]
+                        for k in m.p:
+                            if isinstance(m.p[k][0], str):
+                                m.p[k][1] = True
                     elif kind == "set_parameters":
                         d = {k: dec(v) for k, v in op[2].items()}
-                        o.set_parameters(dict(d))
+                        if len(op) > 3 and op[3] is not None:
+                            # the caller's own dict object, rewritten in place before it is passed again
+                            dobj = shared.setdefault(op[3], {})
+                            dobj.clear()
+                            dobj.update(d)
+                            count("probe.caller_dict_reused")
+                        else:
+                            dobj = dict(d)
+                        o.set_parameters(dobj)
                         for k, v in d.items():
                             m.p[k] = [v, False]
                         for k in m.p:
@@ -850,18 +888,23 @@ def execute(trace):
                                         m.p[k] = [v, False]
                     else:
                         raise core.HarnessError("unknown op %r" % kind)
-                for oid in touched:
-                    if oid in objs:
-                        observe(oid, site)
-                for oid in sorted(objs):
-                    if oid not in touched:
-                        observe(oid, site + ":bystander-object")
+                if obs_flags is None or opi >= len(obs_flags) or obs_flags[opi]:
+                    for oid in touched:
+                        if oid in objs:
+                            observe(oid, site)
+                    for oid in sorted(objs):
+                        if oid not in touched:
+                            observe(oid, site + ":bystander-object")
+                    count("reads.observed_steps")
                 events.append([opi, kind, outcome, state_digest()])
                 sets["states"].add(events[-1][3])
                 prev_kinds.append(kind)
                 if len(prev_kinds) >= 3:
                     sets["grams"].add(">".join(prev_kinds[-3:]))
                 count("op." + kind)
+            site = "end-of-history"
+            for oid in sorted(objs):
+                observe(oid, site)
         except _Violation as v:
             violation = v.v
             violation["op_index"] = len(events)
@@ -897,11 +940,15 @@ def execute(trace):
 def shrink_candidates(trace):
     ops = trace["ops"]
     n = len(ops)
+    obs = trace["config"].get("observe")
+    if obs is None or len(obs) != n:
+        obs = [1] * n
     size = n // 2
     while size >= 1:
         for start in range(0, n, size):
             t = copy.deepcopy(trace)
             t["ops"] = ops[:start] + ops[start + size:]
+            t["config"]["observe"] = obs[:start] + obs[start + size:]
             if len(t["ops"]) < n:
                 yield t
         size //= 2
